@@ -62,8 +62,6 @@ def Call.complete (k : Call) : Bool :=
 structure Conn where
   /-- offered on `incoming`, not yet taken by the accept loop -/
   pending : Bool
-  /-- its IO was dropped without ever being accepted (incoming ended / serve future gone) -/
-  discarded : Bool
   /-- ghost: the shutdown signal had already fired when the connection was offered -/
   offeredAfterSig : Bool
   /-- the accept loop took it and spawned `serve_connection` -/
@@ -90,7 +88,7 @@ structure Conn where
 deriving Repr
 
 def Conn.new (pending afterSig : Bool) : Conn :=
-  { pending := pending, discarded := !pending, offeredAfterSig := afterSig, accepted := false,
+  { pending := pending, offeredAfterSig := afterSig, accepted := false,
     watcher := false, hs := false, sawSig := false, ageReady := false, ageFired := false,
     graceful := false, final := false, closed := false, peerGone := false, calls := [] }
 
@@ -250,7 +248,7 @@ def step (s : State) : Label → Option State
     if s.afterDone && !s.resolved && (!s.cfgGraceful || receiverCount s == 0) then
       some { s with resolved := true, openAtResolve := openCount s,
                     conns := s.conns.map (fun cn =>
-                      if cn.pending then { cn with pending := false, discarded := true } else cn) }
+                      { cn with pending := false }) }
     else none
   -- ---------------------------------------------------------------- serve_connection
   | .connSig c =>
